@@ -18,7 +18,28 @@ theorem sess_ev_neutral (c : Conn) (e : Ev) (h : Sess c) (he : ∀ j : J, j.step
   refine ⟨⟨⟨by rw [hj]; exact h.ji.nbad, by rw [hj]; exact h.ji.stop, fun hl => by rw [hj]; exact h.ji.ready hl⟩,
     fun a b => by rw [hj]; exact h.hello a b⟩, fun hi hl => by rw [hj]; exact hi hl, hj⟩
 
-theorem step_content (i : Nat) (b : Bool) (j : J) : j.step (.content i b) = j := by simp [J.step]
+theorem step_content_partial (i : Nat) (j : J) : j.step (.content i false) = j := by simp [J.step]
+
+/-- a complete rendering handed over inside DATA -/
+theorem sess_content_full (c : Conn) (i : Nat) (h : Sess c) (hp : live c → (judge c.trace).tx = .data) :
+    Sess (c.ev (.content i true)) ∧ (live (c.ev (.content i true)) → (judge (c.ev (.content i true)).trace).tx = .full) := by
+  have hj : judge (c.ev (.content i true)).trace =
+      if (judge c.trace).stopped then judge c.trace
+      else if (judge c.trace).tx == .data then { judge c.trace with tx := .full } else judge c.trace := by
+    rw [judge_ev]; simp [J.step]
+  have hb : (judge (c.ev (.content i true)).trace).bad = (judge c.trace).bad := by rw [hj]; split <;> (try split) <;> rfl
+  have hs : (judge (c.ev (.content i true)).trace).stopped = (judge c.trace).stopped := by rw [hj]; split <;> (try split) <;> rfl
+  have hh : (judge (c.ev (.content i true)).trace).hello = (judge c.trace).hello := by rw [hj]; split <;> (try split) <;> rfl
+  have hg : (judge (c.ev (.content i true)).trace).greeted = (judge c.trace).greeted := by rw [hj]; split <;> (try split) <;> rfl
+  have hpd : (judge (c.ev (.content i true)).trace).pending = (judge c.trace).pending := by rw [hj]; split <;> (try split) <;> rfl
+  have hc : (judge (c.ev (.content i true)).trace).closed = (judge c.trace).closed := by rw [hj]; split <;> (try split) <;> rfl
+  refine ⟨⟨⟨by rw [hb]; exact h.ji.nbad, by rw [hs]; exact h.ji.stop, fun hl => ?_⟩, fun a b => by rw [hh]; exact h.hello a b⟩, ?_⟩
+  · obtain ⟨a, b, d⟩ := h.ji.ready hl
+    exact ⟨by rw [hg]; exact a, by rw [hpd]; exact b, by rw [hc]; exact d⟩
+  · intro hl
+    have hst := ji_not_stopped c h.ji hl
+    have := hp hl
+    rw [hj]; simp [hst, this]
 theorem step_deadline (j : J) : j.step .deadline = j := by simp [J.step]
 theorem step_tlsOn (j : J) : j.step .tlsOn = j := by simp [J.step]
 theorem step_tlsFail (j : J) : j.step .tlsFail = j := by simp [J.step]
